@@ -63,6 +63,22 @@ def generate(seed, batch):
                 ['ArpackNoConvergence', 'ArpackError', 'SingularFactor', 'MemoryError', 'ValueError'])}]
             scen['sparse'] = True
             scen['reduced_dof'] = False
+    elif batch == 'M' and rng.random() < 0.3:
+        # matrices of multi-component models (assembly, stiffened bay), solved by analysis.freq
+        from . import c20 as _c20
+        kind = rng.choice(['assembly', 'bay'])
+        sub = _c20.generate(rng.getrandbits(48), 'A' if kind == 'assembly' else 'B')
+        scen['src'] = 'model'
+        scen['impl'] = 'analysis'
+        scen['sparse'] = rng.random() < 0.6
+        scen['reduced_dof'] = False
+        scen['k'] = rng.choice([1, 2, 3, 5])
+        scen['model'] = {'kind': kind, 'defn': sub['defn'], 'atype': 4, 'flags': {}, 'm': 0, 'n': 0}
+        if kind == 'assembly':
+            for pd in scen['model']['defn']['panels']:
+                pd['mu'] = 1.3e3
+        else:
+            scen['model']['defn']['mu'] = 1.3e3
     elif batch == 'M':
         scen['src'] = 'model'
         scen['impl'] = rng.choice(['analysis', 'panel'])
@@ -139,7 +155,7 @@ def shrink_candidates(scen):
     else:
         mo = scen['model']
         for key in ('m', 'n'):
-            if mo[key] > 2:
+            if mo.get('kind') not in ('assembly', 'bay') and mo[key] > 2:
                 c = copy.deepcopy(scen)
                 c['model'][key] = mo[key] - 1
                 yield c
@@ -317,7 +333,12 @@ def execute(scen):
         if scen['src'] == 'random':
             Kd, Md, active = eig.make_pair_freq(scen['mat'])
         else:
-            obj = build_panel(scen)
+            if scen['model'].get('kind') in ('assembly', 'bay'):
+                from . import c20 as _c20
+                obj = _c20.build(scen['model']['kind'], scen['model']['defn'])
+                bump(res['probes'], 'model_kind_' + scen['model']['kind'])
+            else:
+                obj = build_panel(scen)
             K0 = obj.calc_k0(silent=True)
             M0 = obj.calc_kM(silent=True)
             Kd, Md = K0.toarray(), M0.toarray()
@@ -346,7 +367,7 @@ def execute(scen):
         seam.install([m_freq, m_panel])
         outcome = None
         try:
-            vals, vecs = call_impl(scen, K, M, k, sparse, sort, reduced, obj=obj)
+            vals, vecs = call_impl(scen, K, M, k, sparse, sort, reduced, obj=obj if scen['impl'] == 'panel' else None)
             outcome = 'returned'
         except Violation:
             raise
